@@ -4,7 +4,7 @@ CONSTANTS
   SHAPES <- Q_SHAPES
   RANKS = {1, 3}
   EPSEXP = {10, 4, 1}
-  GUESS = {"none", "fresh", "big", "alias", "reused"}
+  GUESS = {"none", "fresh", "big", "alias", "reused", "exact1", "exact2", "zero"}
   SEEDS = {1}
   BACKENDS = {"py"}
   PREC = {}
